@@ -7,10 +7,14 @@ import SurfModel.Slice
 The model mirrors the (repaired) code statement by statement.  `usize` arithmetic that the code performs
 with plain `+` is *checked* here (`addU`, panic = explicit outcome: the two `+ 2` of `Frame::layout` and
 the cursor sums of `Cell::layout`), `saturating_*` and `clamp` are what they are in Rust (`usize::clamp`
-panics when `min > max`), division panics on a zero divisor.  Flex factors are exact rationals (pairs of
-naturals); on the grid `k/4, k ≤ 64`, extents `< 2^20` the `f64` evaluation of the code coincides with
-this arithmetic (products `< 2^53`, quotients either exactly representable or at distance `≥ 1/640` from
-a half-integer), so `f64::round` is `roundHalfAway`.
+panics when `min > max`), division panics on a zero divisor.  Flex factors and scroll bar fractions are
+`F64` values: exact rationals plus `+inf`, `-inf`, `NaN`, with the `f64` rules the code relies on
+(`0 * inf = NaN`, `x / +0`, `NaN`-transparent `clamp`, comparisons false on `NaN`, round half away from
+zero, `as usize` saturating with `NaN -> 0`).  On the grid `k/4` (`|k| ≤ 64`) for factors, `k/8` for
+fractions, extents `< 2^20`, the `f64` evaluation of the code coincides with this arithmetic (products
+`< 2^53`, quotients either exactly representable or at distance `≥ 1/640` from a half-integer).
+`Image::render` crops the image to `surface extent * pixels_per_cell` pixels with saturating products
+(repaired); the crop only selects pixels of the image and is not represented.
 
 The layout tree is the inductive tree `LT` (the arena of `TreeStore` with first-child / next-sibling
 links is the Rust representation of exactly this).  `LT.data` mirrors `Layout::data` as far as the
@@ -803,7 +807,7 @@ def showPath (l : List (Pos × Size)) : String :=
 
 /-- requests
 * `layout <glyphs 0|1> <ppc h> <ppc w> <min h> <min w> <max h> <max w> <tree…>` → layout tree or `panic`
-* `render <glyphs> <ppch> <ppcw> <minh> <minw> <maxh> <maxw> <shape: start,end,width,height,rs,cs> <tree…>`
+* `render <glyphs> <ppch> <ppcw> <minh> <minw> <maxh> <maxw> <shape: start,width,height,rs,cs> <tree…>`
   → the shapes handed to the probe leaves, in call order (`-` if none), `panic`, `invalid-layout`
 * `bar <major> <n> <visible> <offset>` → the first `min major n` cells of a scroll bar of layout extent
   `major`: `1` thumb, `0` track (`ScrollBar::render`, repaired: `index >= offset.saturating_add(size)`)
@@ -818,7 +822,8 @@ def handle : List String → String
     | _, _, _, _, _, _, _ => "bad-op"
   | "render" :: g :: ph :: pw :: a :: b :: c :: d :: sh :: tree =>
     match ph.toNat?, pw.toNat?, a.toNat?, b.toNat?, c.toNat?, d.toNat?, natList? sh, parseV tree with
-    | some ph, some pw, some a, some b, some c, some d, some [s0, s1, s2, s3, s4, s5], some (v, []) =>
+    | some ph, some pw, some a, some b, some c, some d, some [s0, s2, s3, s4, s5], some (v, []) =>
+      let s1 := 0   -- `end` is not on the wire
       let ctx : Ctx := ⟨g == "1", ⟨ph, pw⟩⟩
       match v.layout ctx ⟨⟨a, b⟩, ⟨c, d⟩⟩ with
       | .error e => showPanic e
